@@ -251,6 +251,16 @@ def srJson : Option ScanResult → Json
       ("severity", Json.num (Int.ofNat sr.severity)),
       ("q", srQueries sr)]
 
+def rtypeJ : RType → Json
+  | .detection => "detection" | .filter => "filter" | .dependency => "dependency"
+
+/-- what the engine holds, through the public getters of `CompiledRule` and `Engine`: per rule, in load order,
+    name / type / severity / is_filter / is_detection; `rules_count`, `is_empty` -/
+def engineJson (rs : List (Str × RType × Nat)) : Json :=
+  Json.mkObj [("count", Json.num (Int.ofNat rs.length)), ("is_empty", Json.bool rs.isEmpty),
+    ("rules", Json.arr (rs.map (fun (n, t, s) => Json.arr #[sJ n, rtypeJ t, Json.num (Int.ofNat s),
+        Json.bool (t == .filter), Json.bool (t == .detection)])).toArray)]
+
 def errKindJ : EvalErr → Json
   | .ruleNotFound => "RuleNotFound"
   | .fieldNotFound => "FieldNotFound"
@@ -571,7 +581,8 @@ def runScenario (x : Ext) (tdocs : List Tpls) (rules : List Rule) (events : List
           | ev :: evs, e, acc =>
             let (e', out) := M.Engine.scan x e ev
             go evs e' (scanOutJson out :: acc)
-        Json.mkObj [("scans", Json.arr (go events eng []).toArray)]
+        Json.mkObj [("scans", Json.arr (go events eng []).toArray),
+                    ("engine", engineJson (eng.rules.map (fun r => (r.name, r.rtype, r.severity))))]
 
 def parseScenario (j : Json) : E (Ext × List Tpls × List Json × List Rule × List Event) := do
     let t ← match jOpt j "ext" with
@@ -960,7 +971,8 @@ def handle (j : Json) : E Json := do
         | some e => e
         | none =>
           let en := (sr.filter (fun p => !p.2)).map Prod.fst
-          Json.mkObj [("scans", Json.arr (events.map (fun ev => specOutJson (S.scan x ev en))).toArray)]
+          Json.mkObj [("scans", Json.arr (events.map (fun ev => specOutJson (S.scan x ev en))).toArray),
+                      ("engine", engineJson (en.map (fun r => (r.name, r.rtype, S.cap r.severity))))]
       -- the hypotheses of the refinement theorem, decided per event (Gene/Props/RelCheck.lean: `checked_refines_event`)
       let wfs ← (← (← j.getObjVal? "events").getArr?).toList.mapM (fun e => jEventWf e jGVal)
       let rel : Json := match modelEngine x tdocs rules with
